@@ -14,7 +14,7 @@ if ! git -C /repo apply --check "$D/patch.diff" 2>/dev/null; then
 fi
 git -C /repo worktree add -q --detach $wt $BASE || exit 2
 demo_build() { # worktree
-  /tmp/seedkit/build_and_test.sh "$1" > "$1/_bt.log" 2>&1; tail -1 "$1/_bt.log"
+  /verif/tools/build_and_test.sh "$1" > "$1/_bt.log" 2>&1; tail -1 "$1/_bt.log"
   # a seed may need extra link flags for its demonstration (e.g. allocator wrapping): seed dir file "demo.ldflags"
   gcc -w -I"$1/src" "$D/demo.c" "$1/_b/libconfuse.a" $(cat "$D/demo.ldflags" 2>/dev/null) -o "$1/_b/demo" 2>"$1/_demo_build.log" || { echo "demo build failed"; cat "$1/_demo_build.log" | head -5; }
 }
